@@ -192,6 +192,10 @@ def cases(tier, seed):
                       cost=k * d, max_paths=20000, hard_timeout_s=240))
       out.append(case('closure_g%d_k%d_d%d' % (gi, k, d), closure_independent(rep, k, d), FUNCS,
                       'components_ %dx%d replaced in place after get_metric()' % (k, d), cost=1, max_paths=3000, hard_timeout_s=240))
+    from checks import c01
+    out.append(case('float_corner_cases_g%d' % gi, c01.float_corner_cases(rep), FUNCS,
+                    'magnitudes 1e-100 .. 1e100 in one batch, null-space differences of rank-deficient transformations: the views stay finite, '
+                    'non-negative and consistent (concrete float64 runs, sampled; harness shared with C01)', concrete_only=True, validate=1))
     out.append(case('dtype_variants_g%d' % gi, dtype_variants(rep, 2, 3), FUNCS,
                     'fixed random components_ 2x3; int / list / Fortran / strided inputs (concrete differential run, not solver-decided)',
                     concrete_only=True, validate=1))
